@@ -70,7 +70,8 @@ def behaviour_of(segment):
             continue
         a = {"a": e}
         for k in ("c", "p", "r", "res", "add", "del", "cust", "prov",
-                  "margin", "timing", "in_parent", "for_child"):
+                  "margin", "timing", "in_parent", "for_child", "x", "lim",
+                  "nolim"):
             if k in ev:
                 a[k] = ev[k]
         if e == "Step":
@@ -277,6 +278,42 @@ CLAUSES = {
         _a("RoaDel", c="B", r=["p1", "a1"]), _a("Settle"),
         _a("RollInit", c="B"), _a("Settle"), _a("RollActivate", c="B"),
         _a("RollActivate", c="B"), _a("Settle")]},
+    # C02 "every request limit": a child that is not hosted here (the
+    # harness plays its part of RFC 6492) asks for certificates with a
+    # resource limit; the issuer's certificate shrinks (the certificates are
+    # replaced by the part both still hold -- the limit must not stand in
+    # the way), its key rolls (every child certificate is re-issued under
+    # the new key), the child is suspended while the issuer shrinks again
+    # and calls in later
+    "foreign-limit-shrink": {"actions": [
+        _a("AddCa", c="B", p="A", res=["p1", "p2", "a1"]), _a("Settle"),
+        _a("AddForeign", c="F", p="B", res=["p1", "p2"]),
+        _a("FIssue", c="F", x="cur", lim=["p1", "p2"], nolim=False),
+        _a("FIssue", c="F", x="new", lim=[], nolim=True), _a("Settle"),
+        _a("ChildRes", c="B", p="A", res=["p1", "a1"]), _a("Settle"),
+        _a("RollInit", c="B"), _a("Settle"),
+        _a("RollActivate", c="B"), _a("Settle"),
+        _a("ChildRes", c="B", p="A", res=["p1", "p2", "a1"]), _a("Settle"),
+        _a("FIssue", c="F", x="cur", lim=["p2"], nolim=False), _a("Settle"),
+        _a("ChildSuspend", c="F", p="B"),
+        _a("ChildRes", c="B", p="A", res=["p2", "a1"]), _a("Settle"),
+        _a("FList", c="F"), _a("Settle"),
+        _a("FRevoke", c="F", x="cur"), _a("FRevoke", c="F", x="new"),
+        _a("Settle"),
+        _a("ChildRemove", c="F", p="B"), _a("Settle")]},
+    # C02 / C19: a limit that is not within the offer is refused (the parent
+    # reports the failure), also for a suspended child that calls in with
+    # it -- which is unsuspended all the same
+    "foreign-limit-refused": {"actions": [
+        _a("AddCa", c="B", p="A", res=["p1", "a1"]), _a("Settle"),
+        _a("AddForeign", c="F", p="B", res=["p1"]),
+        _a("FIssue", c="F", x="cur", lim=["p1", "a1"], nolim=False),
+        _a("FIssue", c="F", x="cur", lim=[], nolim=True), _a("Settle"),
+        _a("ChildSuspend", c="F", p="B"), _a("Settle"),
+        _a("FIssue", c="F", x="new", lim=["a1"], nolim=False), _a("Settle"),
+        _a("ChildRes", c="F", p="B", res=["p1", "a1"]),
+        _a("FIssue", c="F", x="new", lim=["a1"], nolim=False), _a("Settle"),
+        _a("FRevoke", c="F", x="cur"), _a("Settle")]},
     # C04: the child rolls while its parent rolls
     "roll-parent-and-child": {"actions": [
         _a("AddCa", c="B", p="A", res=["p1", "p2"]), _a("Settle"),
@@ -661,6 +698,10 @@ def replay(pid, level, path, seed):
 
 
 COMMON_ASSUMPTIONS = [
+    "children that are not hosted by the instance (theme foreign): one "
+    "child F under B, two keys, requests list / issue (no limit, or a limit "
+    "naming all three resource families) / revoke as signed messages "
+    "through CaManager::rfc6492",
     "hierarchy TA <- A <- {B, C, D}, A's holdings fixed; one parent per CA "
     "except in theme multi, where C is a child of B and of A (one resource "
     "class per parent; a CA with two classes has no children); resources are "
